@@ -22,9 +22,12 @@ BOUNDS = {
              'sequence (each recipient ok/permanent/transient); per round the '
              'backoff grants a retry (delay 0) or not; 4 backends; sender '
              'empty or not; plus 3 recipients x 2 rounds on dict; bounded '
-             'pools on redis',
+             'pools on redis; mapping listed in reverse recipient order; '
+             'RecipientSplit policy with store writes of uneven latency '
+             '(0 or 1 extra scheduler turn each) on dict and redis',
     'thorough': '3 recipients x 3 rounds on all backends, symbolic delays, '
-                'sequence results, bounded pools',
+                'sequence results, bounded pools, reversed mappings and '
+                'split policy with uneven write latency on all backends',
 }
 OUTSIDE = ('real relays (their result contract is checked by C11); real '
            'redis/S3/aio; histories longer than the bound; process crashes '
@@ -59,6 +62,12 @@ def cells(tier):
         out.append({'backend': 'dict', 'n': 2, 'rounds': 2,
                     'bounce_queue': 'self',
                     'kinds': ['mapping', 'transient', 'permanent']})
+        out.append({'backend': 'dict', 'n': 2, 'rounds': 2, 'rev_map': 1,
+                    'kinds': ['mapping', 'transient']})
+        out.append({'backend': 'dict', 'n': 2, 'rounds': 2, 'split': 1,
+                    'kinds': ['none', 'transient', 'permanent']})
+        out.append({'backend': 'redis', 'n': 2, 'rounds': 2, 'split': 1,
+                    'kinds': ['none', 'transient']})
     else:
         for b in backends:
             out.append({'backend': b, 'n': 3, 'rounds': 3,
@@ -71,6 +80,10 @@ def cells(tier):
                         'kinds': allk})
             out.append({'backend': b, 'n': 2, 'rounds': 2,
                         'bounce_queue': 'self', 'kinds': allk})
+            out.append({'backend': b, 'n': 3, 'rounds': 2, 'rev_map': 1,
+                        'kinds': ['mapping', 'transient']})
+            out.append({'backend': b, 'n': 3, 'rounds': 2, 'split': 1,
+                        'kinds': ['none', 'transient', 'permanent']})
     return out
 
 
@@ -90,8 +103,18 @@ def run(cell):
     info = dict(backend=cell['backend'])
     if not api.prove(h['accepted'], 'enqueue-failed', **info):
         return
-    disp, groups = qhist.reference(h, rcpts)
     calls = [c for c in h['relay'].calls if c['tag'] == 'm1']
+    if cell.get('split'):
+        # one envelope per recipient: each is judged by its own attempts
+        disp = {}
+        for r in rcpts:
+            d, _ = qhist.reference(h, [r], [c for c in calls
+                                            if c['rcpts'] == [r]])
+            disp.update(d)
+        pairs = [(e.recipients, i) for e, i in h['result']]
+    else:
+        disp, groups = qhist.reference(h, rcpts)
+        pairs = [(rcpts, h['qid'])]
     api.observe('attempts', [[c['rcpts'], c['attempts'],
                               qc.Outcome.NAMES[c['outcome'][0]]]
                              for c in calls])
@@ -100,8 +123,9 @@ def run(cell):
     # a message left in storage after every recipient was delivered or
     # bounced is a duplicate-delivery risk, not a loss: recorded, not judged
     api.note('left_in_storage', h['qid'] in h['stored'])
-    gone_early = h['qid'] not in h['stored'] and \
-        any(d == 'outstanding' for d in disp.values())
+    gone_early = any(i not in h['stored'] and
+                     any(disp[r] == 'outstanding' for r in rs)
+                     for rs, i in pairs)
     api.prove(not gone_early, 'removed-with-recipients-outstanding',
               disp=disp, **info)
     for r in rcpts:
